@@ -893,6 +893,92 @@ func (fi *FuncInfo) lin(v ssa.Value) Lin {
 	return l
 }
 
+// capturedConst: the closure's free variable fv is a cell of the parent function that is written exactly
+// once, before the closure is made, and only read elsewhere (in the parent and in every closure that
+// captures it); the written value's linear form over field reads (no SSA temporaries, no versions: the
+// same names mean the same in the closure, whose receiver is the same captured pointer).
+func (fi *FuncInfo) capturedConst(fv *ssa.FreeVar) (Lin, bool) {
+	fn := fi.fn
+	parent := fn.Parent()
+	if parent == nil {
+		return Lin{}, false
+	}
+	idx := -1
+	for i, f := range fn.FreeVars {
+		if f == fv {
+			idx = i
+		}
+	}
+	if idx < 0 {
+		return Lin{}, false
+	}
+	var cell *ssa.Alloc
+	for _, b := range parent.Blocks {
+		for _, in := range b.Instrs {
+			if mc, ok := in.(*ssa.MakeClosure); ok && mc.Fn == ssa.Value(fn) && idx < len(mc.Bindings) {
+				a, isAlloc := mc.Bindings[idx].(*ssa.Alloc)
+				if !isAlloc || (cell != nil && cell != a) {
+					return Lin{}, false
+				}
+				cell = a
+			}
+		}
+	}
+	if cell == nil {
+		return Lin{}, false
+	}
+	var st *ssa.Store
+	for _, ref := range *cell.Referrers() {
+		switch r := ref.(type) {
+		case *ssa.Store:
+			if r.Addr != ssa.Value(cell) || st != nil {
+				return Lin{}, false
+			}
+			st = r
+		case *ssa.UnOp:
+			if r.Op != token.MUL {
+				return Lin{}, false
+			}
+		case *ssa.MakeClosure:
+			// every closure capturing the cell only reads it
+			cf, _ := r.Fn.(*ssa.Function)
+			if cf == nil {
+				return Lin{}, false
+			}
+			for i, bnd := range r.Bindings {
+				if bnd != ssa.Value(cell) || i >= len(cf.FreeVars) {
+					continue
+				}
+				for _, fr := range *cf.FreeVars[i].Referrers() {
+					if ld, ok := fr.(*ssa.UnOp); !ok || ld.Op != token.MUL {
+						return Lin{}, false
+					}
+				}
+			}
+		case *ssa.DebugRef:
+		default:
+			return Lin{}, false
+		}
+	}
+	if st == nil {
+		return Lin{}, false
+	}
+	pfi := fi.ctx.info(parent)
+	l := pfi.lin(st.Val)
+	for a := range l.t {
+		if strings.Contains(a, "@") || strings.HasPrefix(a, "len(") || strings.HasPrefix(a, "cap(") {
+			return Lin{}, false
+		}
+		if len(a) > 1 && a[0] == 't' && a[1] >= '0' && a[1] <= '9' {
+			return Lin{}, false
+		}
+		if !strings.Contains(a, ".") {
+			return Lin{}, false
+		}
+	}
+	return l, true
+}
+
 func (fi *FuncInfo) lin0(v ssa.Value) Lin {
 	if c, ok := constInt(v); ok {
 		return linConst(c)
@@ -930,6 +1016,13 @@ func (fi *FuncInfo) lin0(v ssa.Value) Lin {
 			return fi.lin(x.X).scale(-1)
 		}
 		if x.Op == token.MUL {
+			// a captured local of the enclosing function that is assigned exactly once there (an
+			// invariant hoisted out of the closure): its value, when that is made of field reads only
+			if fv, isFV := x.X.(*ssa.FreeVar); isFV && isIntType(x.Type()) {
+				if l, ok := fi.capturedConst(fv); ok {
+					return l
+				}
+			}
 			if r, p, ok := pathStr(x.X); ok && !strings.Contains(p, "[*]") {
 				if a, isAlloc := r.(*ssa.Alloc); isAlloc {
 					// address-taken local with a single dominating store: forward the value
